@@ -57,13 +57,16 @@ def run(cmd, timeout=3600, cwd=None, env=None, check=False):
 
 
 _tlc_n = [0]
+import threading
+_tlc_lock = threading.Lock()
 
 
 def tlc(wd, module, cfg_text, files=(), workers=None, timeout=1800, simulate=None, depth=None, seed_=None, extra=(),
         javaopts=None, dfid=None):
     """Run TLC on SPEC/module.tla with the given cfg text in a scratch directory. Returns a dict."""
-    _tlc_n[0] += 1
-    d = os.path.join(wd, "tlc%d" % _tlc_n[0])
+    with _tlc_lock:
+        _tlc_n[0] += 1
+        d = os.path.join(wd, "tlc%d" % _tlc_n[0])
     os.makedirs(d, exist_ok=True)
     for f in os.listdir(SPEC):
         if f.endswith(".tla"):
